@@ -410,6 +410,8 @@ class Check:
               "wall_s": round(time.time() - self.t0, 2), "violations": len(self.violations)}
         if self.known_hit:
             ev["known_findings_hit"] = self.known_hit
+        if self.violations:
+            ev["violation_keys"] = [v[0][:300] for v in self.violations[:200]]
         if extra:
             ev["coverage"].update(extra)
         os.makedirs(os.path.join(ROOT, "evidence"), exist_ok=True)
